@@ -352,8 +352,18 @@ func (p *Parser) parseSpecs(specs []srcInput, listener *TreeShapeListener) (*sys
 				return nil, fmt.Errorf("error parsing %s: %w", src.filename, v.err)
 			}
 			if v.syslProtoImport != nil {
-				// Merge structs recursively
-				if err := mergo.Merge(listener.module, v.syslProtoImport); err != nil {
+				// Merge structs recursively. mergo assigns by reflection and panics when a name has values of
+				// different Go types on the two sides (an attribute that is an empty string in the text and an
+				// array in the compiled module): such a panic is reported as an error of that file.
+				merge := func() (err error) {
+					defer func() {
+						if r := recover(); r != nil {
+							err = fmt.Errorf("%v", r)
+						}
+					}()
+					return mergo.Merge(listener.module, v.syslProtoImport)
+				}
+				if err := merge(); err != nil {
 					return nil, fmt.Errorf("error merging %s: %w", src.filename, err)
 				}
 			}
